@@ -12,14 +12,18 @@ RULE = ('random programs (3-9 statements: var/assignment operators/if-else/while
         'representable numbers incl. durations, printed with minimal parentheses per the documented precedence table and '
         'evaluated twice by ConfigCompiler::CompileText + Expression::Evaluate; operator typing matrix (every binary operator '
         'x every pair of operand kinds); precedence pairs (a op1 b op2 c for all operator pairs); scoping/closure/this '
-        'templates; closure-state family (closures with 0-2 parameters x use-lists of 0-2 variables that read/assign/+= captured variables, redeclare locals, rely on unset body locals, nested closures, recursion through captured function values, each called 2-3 times interleaved with outer mutations); callbacks that resize the array they iterate (map/filter/any/all); depth-limit programs (recursion and nesting around 300); recorded crash reproducers; programs broken at a '
+        'templates; Type objects and typeof (every operand kind x every primitive type, Type fields, constructor calls); union/intersection (0-4 arguments, duplicates, null, scalars, mixed kinds); match() glob patterns x texts, array form with MatchAll/MatchAny/other modes; references (&local/&this member/&global/&unknown/&a.b/&a[i]/&*p/&p, reads, assignments and compound assignments through *p, Reference#get/#set, closures capturing references, invalid operands); const, namespace blocks and using imports (constness rules, scoping inside the block, lookup order local > this > imports in textual order > System > Types > globals, imports that are dictionaries/namespaces/arrays/scalars/null); Json.encode/decode (all operand kinds, nested containers, escapes, malformed texts, nesting limit, round trip); evaluation-order family: else-if chains with 0-4 branches with/without else over overlapping conditions and with probes that log the evaluation order, nested chains, chains as values, argument/array/dictionary/use()/parameter lists with >= 3 elements, ||/&& chains, statement lists, right-nested ternaries, same-operator chains; closure-state family (closures with 0-2 parameters x use-lists of 0-2 variables that read/assign/+= captured variables, redeclare locals, rely on unset body locals, nested closures, recursion through captured function values, each called 2-3 times interleaved with outer mutations); callbacks that resize the array they iterate (map/filter/any/all); depth-limit programs (recursion and nesting around 300); recorded crash reproducers; programs broken at a '
         'known token (syntax error position); hostile stream: mutated programs, random bytes, deep nesting, deep recursion on '
         'main thread / 512 KiB thread / 256 KiB coroutine stack. Candidates whose model result leaves the exact-number domain '
         'are dropped before the run. non-trivial = program with at least 3 AST nodes whose evaluation did not end in a '
         'syntax error; distinct = distinct script text')
-TRUSTED = ['model: coq/Dsl/DslDefs.v, DslOps.v, DslEval.v (hand transcription of lib/config/expression.cpp, vmops.hpp, '
-           'lib/base/value-operators.cpp, value.cpp, convert.cpp, scriptframe.cpp, array/dictionary/string/number-script.cpp, scriptutils.cpp)',
-           'the parser (bison/flex tables) is not modelled: precedence/associativity is COMPARED through the minimal-parenthesis printer in vlib/p_c15.py, which encodes the documented table',
+TRUSTED = ['model: coq/Dsl/DslDefs.v, DslOps.v, DslJson.v, DslEval.v (hand transcription of lib/config/expression.cpp, vmops.hpp, '
+           'lib/base/value-operators.cpp, value.cpp, convert.cpp, scriptframe.cpp, array/dictionary/string/number/namespace/reference-script.cpp, namespace.cpp, reference.cpp, scriptutils.cpp, json.cpp via the codec model coq/Codec/JsModel.v)',
+           'match(): the glob matcher is a specification-style recursive matcher; its equality with the backtracking C routine third-party/mmatch match() is compared (patterns x texts), not proved; only 7-bit text without NUL is followed',
+           'union/intersection: std::set / std::sort / std::set_intersection over Value::operator< are followed for numbers-only and non-empty-strings-only operands (and the always-throwing number/string mixtures); other mixtures are outside the model',
+           'Json: non-integer numbers are followed when their exact decimal expansion has at most 15 significant digits (e <= 6, |m| < 2^26) - there the shortest round-trip text nlohmann prints is that expansion; decoded float tokens when exactly representable',
+           'regex(), cidr_match(), Math.*, DateTime, Function#call/callv, freeze, basename/dirname/escape_shell_arg are NOT modelled (hostile stream / outcome classes only)',
+           'the parser (bison/flex tables) is not modelled: precedence/associativity is COMPARED through the minimal-parenthesis printer in vlib/p_c15.py; PROVED is only that the printer table, the documented table and the %left/%right/%nonassoc declarations of config_parser.yy (all regenerated into Facts_c15.v) agree on the 20 binary operators (C15_precedence_tables_agree)',
            'numbers: the model computes with exact dyadic rationals and aborts outside |m|<2^53; generated programs are screened with the extracted model to stay inside (binary64 is exact there)',
            'error kinds are not compared (only value vs script error vs syntax error): to a program all are one ScriptError; the 300 limit is observed through values (recursion counters)',
            'Coq String.string is extracted as a plain inductive (ocaml/vcore.ml re-binds the OCaml type name string)',
@@ -1762,4 +1766,11 @@ def extra_stats(cases, impl):
     res['dropped_outside_exact_domain'] = _last_dropped[0]
     res['closure_called_twice_after_assigning_captured'] = sum(1 for c in cases if c.get('tags', {}).get('closure_assign_multi'))
     res['closure_state_programs'] = sum(1 for c in cases if c.get('tags', {}).get('family') == 'closure-state')
+    kw = {'typeof': 'typeof(', 'union': 'union(', 'intersection': 'intersection(', 'match': 'match(', 'ref': '&', 'const': 'const ', 'namespace': 'namespace ', 'using': 'using ', 'json': 'Json.',
+          'else_if_chain2': None}
+    for k, pat in kw.items():
+        if pat is None:
+            res['programs_with_' + k] = sum(1 for c in cases if c.get('tags', {}).get('src', '').count(' else if (') >= 2 and c['lines'][0].startswith('dsl_eval'))
+        else:
+            res['programs_with_' + k] = sum(1 for c in cases if pat in c.get('tags', {}).get('src', '') and c['lines'][0].startswith('dsl_eval'))
     return dict(res)
